@@ -15,7 +15,16 @@ CONFIG = {
              "cells and raw cells (half from write_gds + read_rawcells): rename (both overloads), replace (4 overloads), remap_tags, add / "
              "remove, deep copy, interleaved with top_level / dependency / tag queries; after every operation all arrays, references and "
              "query results are dumped as canonical text. About 55% of the histories stay inside the proved contract and carry a property "
-             "oracle; the rest are arbitrary (collisions, cycles, non-members). non-trivial: at least 5 operations"),
+             "oracle; the rest are arbitrary (collisions, cycles, non-members). About one history in four starts with a raw-cell dependency "
+             "chain 3 or 4 deep (hand-made or loaded from a GDSII file) whose head is referenced by one cell, that cell by a second and the "
+             "second by a third (chain seen directly, through one and through two levels of Cell references). On the initial library and "
+             "after every operation an independent dependency oracle recomputes, from the pointer graph in memory (reference_array by "
+             "pointer or by member name, RawCell::dependencies; own work-list traversal, no gdstk query), the direct and transitive sets of "
+             "cells and raw cells of every member and compares them with Cell::get_dependencies, Cell::get_raw_dependencies, "
+             "RawCell::get_dependencies (both flags; recursive queries skipped on cells reaching a reference cycle) and Library::top_level: a "
+             "difference is filed under a recorded finding only when withdrawing that cause from the expectation (no by-name edges / one "
+             "object per name) makes the sets equal, otherwise under dependencies:wrong-set / top_level:wrong-set with the history. "
+             "non-trivial: at least 5 operations"),
     "trusted": ["cell identities are creation indices (pointer -> id table in the harness)"],
     "assumptions": [],
 }
